@@ -1,6 +1,7 @@
 import Rivaas.Spec.Chain
 import Rivaas.Spec.Compose
 import Rivaas.Lemmas.ChainSim
+import Rivaas.Lemmas.ComposeSound
 import Rivaas.Model.ComposeAsIs
 /-
 C02 — Handler chains run in composition order, once per position, and stop on abort.
@@ -452,5 +453,53 @@ theorem mount_order_example :
     let tg : Target := { mounts := [4], route := 3 }
     compose script none [2, 1] = some [1, 1, 2, 4, 3] ∧ chainOK script tg [1, 1, 2, 4, 3] = true ∧
     dK02b script tg = false := by decide
+
+/-! ### composition order and isolation, for all scripts without `Mount` -/
+
+open Rivaas.Compose in
+/-- **Composition order + isolation (partial: scripts without `Mount`).** For every well-formed
+    configuration script (`Compose.WF`: references point to objects that exist, route segments are
+    distinct) built from `Use`, `Group`, nested `Group`, `Group.Use`, `Version`, version groups,
+    explicit `Warmup`, further routers and the whole app layer (`app.Use`, `app.Group` and nested
+    groups with `Use`, `app.Version` groups with `Use`/`Group`, `WithBefore`/`WithAfter`), and every
+    route declared on the serving router: the handler slice the model composes **exists** and is
+    **admitted by the oracle** — router-global middleware first, then the groups from the outermost
+    to the innermost, then the route's own handlers (before, handler, after); every middleware
+    attached to an enclosing scope before the route (or nested scope) was declared is present, in
+    attach order; nothing attached to any other group, version group or route occurs.
+    `Mount` (and with it the recorded finding K02b) is outside this theorem: there the clause is
+    checked per generated case by the driver and carried by the witness theorems above. -/
+theorem compose_admitted_partial (script : List Op) (hnm : NoMount script) (hwf : WF script) (i : Nat)
+    (ver : Option Nat) (path : Path) (ls : List Level)
+    (hl : levels script { mounts := [], route := i } = some (ver, path, ls)) :
+    ∃ chain, compose script ver path = some chain ∧ chainOK script { mounts := [], route := i } chain = true := by
+  obtain ⟨chain, h1, h2⟩ := compose_admitted_nomount script hnm hwf i ver path ls hl
+  exact ⟨chain, h1, by simp [chainOK, hl, h2]⟩
+
+
+open Rivaas.Compose in
+/-- the same with the Boolean checks the driver evaluates on every generated case (`wfB` is a
+    precondition for the driver to judge a case at all, so the hypothesis of the theorem holds on
+    the whole tested population without `Mount`) -/
+theorem compose_admitted_checked (script : List Op) (hnm : noMountB script = true) (hwf : wfB script = true)
+    (i : Nat) (ver : Option Nat) (path : Path) (ls : List Level)
+    (hl : levels script { mounts := [], route := i } = some (ver, path, ls)) :
+    ∃ chain, compose script ver path = some chain ∧ chainOK script { mounts := [], route := i } chain = true :=
+  compose_admitted_partial script (noMount_of_noMountB script hnm) (wf_of_wfB script hwf) i ver path ls hl
+
+open Rivaas.Compose in
+/-- non-vacuity: a script with global `Use` before and after the route, a nested group created
+    before its parent's later `Use`, `Group.Use` before and after the route, an explicit warm-up and
+    an app version group — well-formed, mount-free, the route resolves, and the composed chain is
+    `[1, 2, 3, 5, 6]` (7 was attached to the parent after the child existed, 8 and 9 after warm-up) -/
+example :
+    let script : List Op := [.use 0 [1], .group 0 1 [2], .subgroup 0 2 [3], .guse 0 [7], .guse 1 [5],
+                             .route (.group 1) 3 [6], .warmup 0, .guse 1 [8], .use 0 [9], .aversion 1, .avuse 0 [10],
+                             .aroute (.avgroup 0) 4 [11] 12 [13]]
+    noMountB script = true ∧ wfB script = true ∧
+    (levels script { mounts := [], route := 5 }).isSome = true ∧
+    compose script none [1, 2, 3] = some [1, 2, 3, 5, 6] ∧
+    compose script (some 1) [4] = some [1, 9, 10, 11, 12, 13] := by decide
+
 
 end Rivaas.C02
